@@ -12,6 +12,7 @@ import (
 	"net"
 	"net/http"
 	"net/http/httptest"
+	"net/url"
 	"strings"
 	"sync"
 
@@ -104,4 +105,54 @@ func (e *stEnv) writeAttempts(obj, sub string) string {
 		}
 	}
 	return strings.Join(accepted, ",")
+}
+
+// lostMappingProbe: a stored relationship whose object name has lost its row in
+// keto_uuid_mappings (a partial restore, a manual clean-up), then list requests that filter
+// by exactly that name through REST and gRPC. Reads leave both tables as they are - also
+// then. Runs in an environment of its own (the modelled histories do not see it). Returns ""
+// or what changed.
+func (e *stEnv) lostMappingProbe(name string) string {
+	do := func(h http.Handler, method, target, body string) int {
+		req := httptest.NewRequest(method, target, strings.NewReader(body))
+		req.Header.Set("Content-Type", "application/json")
+		w := httptest.NewRecorder()
+		h.ServeHTTP(w, req)
+		return w.Code
+	}
+	body, _ := json.Marshal(map[string]any{"namespace": e.cfg[0], "object": name, "relation": "r", "subject_id": name + "-sub"})
+	if code := do(e.nets[0].write, "PUT", relationtuple.WriteRouteBase, string(body)); code/100 != 2 {
+		return ""
+	}
+	conn := e.nets[0].p.Connection(e.ctx)
+	for _, lost := range []string{name, name + "-sub"} {
+		if err := conn.RawQuery("DELETE FROM keto_uuid_mappings WHERE string_representation = ?", lost).Exec(); err != nil {
+			return ""
+		}
+	}
+	before := e.snapshot()
+	msg := ""
+	func() {
+		defer func() {
+			if r := recover(); r != nil {
+				msg = "panic"
+			}
+		}()
+		q := url.Values{"namespace": {e.cfg[0]}, "object": {name}}
+		do(e.nets[0].read, "GET", relationtuple.ReadRouteBase+"?"+q.Encode(), "")
+		q = url.Values{"subject_id": {name + "-sub"}}
+		do(e.nets[0].read, "GET", relationtuple.ReadRouteBase+"?"+q.Encode(), "")
+		if conns, err := e.grpcProbeConns(); err == nil && len(conns) > 0 {
+			ns, ob, sub := e.cfg[0], name, name+"-sub"
+			rc := rts.NewReadServiceClient(conns[0])
+			_, _ = rc.ListRelationTuples(e.ctx, &rts.ListRelationTuplesRequest{RelationQuery: &rts.RelationQuery{Namespace: &ns, Object: &ob}})
+			_, _ = rc.ListRelationTuples(e.ctx, &rts.ListRelationTuplesRequest{RelationQuery: &rts.RelationQuery{Subject: rts.NewSubjectID(sub)}})
+		}
+	}()
+	if after := e.snapshot(); after != before && msg == "" {
+		msg = "tables changed by list requests that filter by a name whose mapping row is missing"
+	}
+	// put the row-less relationship away again (the next probe starts from a consistent table)
+	_ = conn.RawQuery("DELETE FROM keto_relation_tuples WHERE relation = 'r' AND namespace = ?", e.cfg[0]).Exec()
+	return msg
 }
